@@ -161,6 +161,22 @@ def check(case, ctx):
             raise Violation('next-run-descriptor-differs', label)
         if not had and (c.pulled != total or c.f_rows != total):
             raise Violation('next-run-did-not-recompute-from-sources', dict(label, pulled=c.pulled, expected=total))
+        # "a checkpoint that is picked up is always complete": the checkpoint this recomputing run saved (next to whatever
+        # the interrupted run left behind) is the complete one, and the run after it - which picks it up - agrees as well
+        if not had:
+            if not os.path.exists(final):
+                raise Violation('recomputing-run-left-no-checkpoint', label)
+            with open(final, 'rb') as fh:
+                b = fh.read()
+            if b != ref_bytes:
+                raise Violation('checkpoint-saved-after-an-interrupted-run-is-not-the-complete-one',
+                                dict(label, size=len(b), complete_size=len(ref_bytes)))
+            try:
+                rows3, desc3, c3 = run_flow(case, cp_root)
+            except Exception as e:
+                raise Violation('run-after-next-fails', dict(label, error=repr(root_cause(e))[:300]))
+            if len(rows3) != len(ref_rows) or not all(rows_eq(a, b) for a, b in zip(rows3, ref_rows)):
+                raise Violation('resumed-run-after-an-interrupted-one-differs', dict(label, n_rows=[len(t) for t in rows3]))
         return had
 
     # ---- kills / I/O errors at every event of the checkpoint writer
